@@ -366,6 +366,10 @@ fn imp(c: &Case) -> String {
 /// POSIX word splitting of a simple command made of literal words only; None outside that fragment.
 /// Independent re-statement (iterative) of coq/Spec.v [sh_words].
 fn rust_split(line: &[u8]) -> Option<Vec<Vec<u8>>> {
+    rust_split_c(line, None)
+}
+/// the same with positional parameters: a word that is exactly `"$@"` stands for all of them
+fn rust_split_c(line: &[u8], args: Option<&[Vec<u8>]>) -> Option<Vec<Vec<u8>>> {
     let mut words = Vec::new();
     let mut cur: Option<Vec<u8>> = None;
     let mut i = 0;
@@ -390,6 +394,14 @@ fn rust_split(line: &[u8]) -> Option<Vec<Vec<u8>>> {
                 cur.get_or_insert_with(Vec::new).push(n);
                 i += 1;
             }
+            b'"' if args.is_some()
+                && cur.is_none()
+                && line[i + 1..].starts_with(b"$@\"")
+                && line.get(i + 4).map_or(true, |b| *b == b' ' || *b == b'\t') =>
+            {
+                words.extend(args.unwrap().iter().cloned());
+                i += 3;
+            }
             0 | b'\n' | b'!' | b'"' | b'#' | b'$' | b'%' | b'&' | b'(' | b')' | b'*' | b';' | b'<' | b'=' | b'>' | b'?'
             | b'[' | b'`' | b'{' | b'|' | b'}' | b'~' => return None,
             _ => cur.get_or_insert_with(Vec::new).push(c),
@@ -411,6 +423,22 @@ struct Sh {
 /// Ask a real /bin/sh (one long-lived co-process) for the words of `fragment`. Only call this with fragments
 /// [rust_split] accepts: they consist of literal words, so nothing is executed but `printf`.
 fn sh_words(fragment: &[u8]) -> Result<Vec<Vec<u8>>, String> {
+    sh_words_c(fragment, &[])
+}
+/// plain single-quote quoting for the oracle's own use (not gix_quote)
+fn oracle_quote(a: &[u8]) -> Vec<u8> {
+    let mut v = vec![b'\''];
+    for b in a {
+        if *b == b'\'' {
+            v.extend_from_slice(b"'\\''");
+        } else {
+            v.push(*b);
+        }
+    }
+    v.push(b'\'');
+    v
+}
+fn sh_words_c(fragment: &[u8], args: &[Vec<u8>]) -> Result<Vec<Vec<u8>>, String> {
     static SH: Mutex<Option<Sh>> = Mutex::new(None);
     let mut g = SH.lock().unwrap_or_else(|e| e.into_inner());
     if fragment.contains(&0) {
@@ -432,7 +460,15 @@ fn sh_words(fragment: &[u8]) -> Result<Vec<Vec<u8>>, String> {
     let sh = g.as_mut().unwrap();
     sh.n += 1;
     let nonce = format!("gixv{}x{}", std::process::id(), sh.n);
-    let mut script = b"printf '%s\\0' X ".to_vec();
+    let mut script = b"set --".to_vec();
+    for a in args {
+        if a.contains(&0) {
+            return Err("nul".into());
+        }
+        script.push(b' ');
+        script.extend(oracle_quote(a));
+    }
+    script.extend_from_slice(b"\nprintf '%s\\0' X ");
     script.extend_from_slice(fragment);
     script.extend_from_slice(format!("\nprintf '\\001%s\\001\\0' {nonce}\n").as_bytes());
     let marker = format!("\x01{nonce}\x01\0").into_bytes();
@@ -622,7 +658,7 @@ fn prop(c: &Case) -> Verdict {
                 Err((class, detail)) => Verdict::fail(class, detail),
             }
         }
-        b"shwords" => Verdict::ok(false, "spec-validation"),
+        b"shwords" | b"shc" => Verdict::ok(false, "spec-validation"),
         b"forshell" => {
             let p = f_str(c, 1);
             let got = gix_url::expand_path::for_shell(p.into());
@@ -776,6 +812,18 @@ fn git(c: &Case) -> String {
             [b"git-upload-pack ".as_slice(), q.as_slice()].concat()
         }
         b"shwords" => f_str(c, 1).to_vec(),
+        b"shc" => {
+            let n = f_u64(c, 2) as usize;
+            let args: Vec<Vec<u8>> = (0..n).map(|i| f_str(c, 3 + i).to_vec()).collect();
+            let line = f_str(c, 1);
+            if line.contains(&0) || args.iter().any(|a| a.contains(&0)) || rust_split_c(line, Some(&args)).is_none() {
+                return "-".into();
+            }
+            return match sh_words_c(line, &args) {
+                Ok(ws) => format!("words {}", if ws.is_empty() { "()".to_string() } else { hexlist(&ws) }),
+                Err(e) => format!("sh-failed {e}"),
+            };
+        }
         _ => return "-".into(),
     };
     if line.contains(&0) || rust_split(&line).is_none() {
@@ -991,6 +1039,33 @@ fn gen_line(rng: &mut Rng) -> Vec<u8> {
     v
 }
 
+/// `sh -c SCRIPT -- ARGS`: scripts as gix-command builds them (command words, then "$@") and near misses
+fn gen_shc(rng: &mut Rng, i: usize) -> Case {
+    let mut script = match i % 5 {
+        0 => b"ssh".to_vec(),
+        1 => b"ssh -v".to_vec(),
+        2 => b"/usr/bin/my-ssh  -F 'my config'".to_vec(),
+        _ => gen_line(rng),
+    };
+    match rng.below(10) {
+        0 => script.extend_from_slice(b" \"$@\"x"),
+        1 => script.extend_from_slice(b"\"$@\""),
+        2 => script.extend_from_slice(b" \"$@\" tail"),
+        3 => script.extend_from_slice(b" \"$@"),
+        4 => {}
+        _ => script.extend_from_slice(b" \"$@\""),
+    }
+    let nargs = rng.below(4);
+    let mut c = vec![tag("shc"), script, num(nargs)];
+    for _ in 0..nargs {
+        c.push(match rng.below(3) {
+            0 => pk(rng, DASHY).to_vec(),
+            1 => gen_path(rng).into_iter().filter(|b| *b != 0).collect(),
+            _ => text_soup(rng, 8),
+        });
+    }
+    c
+}
 fn gen_inv(rng: &mut Rng) -> Case {
     let mut c = vec![tag("inv"), num(rng.below(5)), num(rng.below(3)), num(rng.below(2))];
     c.push(if rng.chance(1, 2) { b"ssh".to_vec() } else { pk(rng, CMDS).to_vec() });
@@ -1043,6 +1118,9 @@ fn gen(rng: &mut Rng, n: usize) -> Vec<Case> {
     }
     for _ in 0..60 {
         out.push(vec![tag("quote"), if rng.chance(1, 2) { gen_path(rng) } else { soup(rng, 30) }]);
+    }
+    for i in 0..50 {
+        out.push(gen_shc(rng, i));
     }
     for w in WS.iter().chain(NEAR_WS.iter()) {
         for tail in [&b"-x"[..], b"x", b""] {
